@@ -296,6 +296,54 @@ def negative_offset_cases(rng, n):
     return out
 
 
+def hostile_cases(rng, n):
+    """inputs that declare far more than they contain, or whose displacements make font names overlap (C10 support)"""
+    out = []
+    big = [2 ** 31 - 1, 2 ** 15 - 1, 10 ** 6]
+    for i in range(n):
+        k = i % 3
+        if k == 0:      # stxt: huge run count
+            text = rtext(rng, 20)
+            data = struct.pack(">iii", 12, len(text), 0) + text + struct.pack(">h", 32767) + rbytes(rng, rng.randrange(0, 70))
+            line = f"text stxt latin_1 - {hx(data)}"
+        elif k == 1:    # fmap: huge capacity / font count
+            nf, cap = rng.choice(big + [0, 1, 3]), rng.choice(big + [0, 1, 3])
+            hd = struct.pack(">4hii6h", 0, 0, 0, 0, nf, cap, 0, 0, 0, 0, 0, 0) + rbytes(rng, 8 * rng.randrange(0, 4))
+            bd = struct.pack(">i", 3) + b"abc"
+            data = struct.pack(">ii", len(hd), len(bd)) + hd + bd
+            line = f"text fmap latin_1 {hx(data)}"
+        else:           # fmap: every font's name is (part of) the same bytes: rejected since F52 once the names exceed the area
+            m = rng.randrange(1, 30)
+            area = rbytes(rng, rng.randrange(0, 120))
+            bd = struct.pack(">i", rng.choice([len(area), len(area) // 2, 1, 0])) + area
+            hd = struct.pack(">4hii6h", 0, 0, 0, 0, m, m, 0, 0, 0, 0, 0, 0) + b"".join(struct.pack(">ihh", rng.choice([0, 0, 0, 4]), 0, j) for j in range(m))
+            data = struct.pack(">ii", len(hd), len(bd)) + hd + bd
+            line = f"text fmap latin_1 {hx(data)}"
+        out.append(Case(kind="hostile", spec=dict(k=k, hex=hx(data)[:400], hexes=[None]), lines=[line], expect=[None]))
+    return out
+
+
+def steps_line(line, rng):
+    t = line.split()
+    if t[1] == "stxt":
+        return f"text steps stxt {t[4]} {t[2]} {rng.choice([0, 0, 1, 3])}"
+    if t[1] == "fmap":
+        return f"text steps fmap {t[3]} {t[2]}"
+    return None
+
+
+def with_steps(cs, rng, every=1):
+    for i, c in enumerate(cs):
+        if i % every:
+            continue
+        extra = [sl for sl in (steps_line(l, rng) for l in list(c.lines)) if sl]
+        c.lines = list(c.lines) + extra
+        c.expect = list(c.expect) + [None] * len(extra)
+        if "hexes" in c.spec:
+            c.spec["hexes"] = list(c.spec["hexes"]) + [None] * len(extra)
+    return cs
+
+
 def cases(rng, tier):
     n = dict(quick=(2000, 2000, 1000, 400, 4000), thorough=(30000, 30000, 10000, 4000, 40000), search=(15000, 15000, 5000, 0, 0))[tier]
     out = byte_texts(rng)
@@ -305,8 +353,10 @@ def cases(rng, tier):
     out += [fmap_case(rng) for _ in range(n[1])]
     out += [pipeline_case(rng) for _ in range(n[2])]
     out += [stxt_case(rng, dup=True) for _ in range(n[3])]
-    out += mutated_cases(rng, n[4])
-    out += negative_offset_cases(rng, n[3])
+    with_steps(out, rng, every=8)
+    out += with_steps(mutated_cases(rng, n[4]), rng)
+    out += with_steps(negative_offset_cases(rng, n[3]), rng)
+    out += with_steps(hostile_cases(rng, n[3]), rng)
     return out
 
 
@@ -331,6 +381,17 @@ def impl(case):
         cmd = t[1]
         if cmd.startswith("enc"):
             out.append(hexes[li] if li < len(hexes) else None)
+        elif cmd == "steps":
+            import idx_steps
+            setenc(t[4] if len(t) > 4 else "default")
+            if t[2] == "stxt":
+                nf = int(t[5]) if len(t) > 5 else 0
+                fm = [FontInfo("f%d" % i, 1000 + i) for i in range(nf)]
+                out.append(str(idx_steps.count_rounds("drxtract.stxt.stxt", "parse_stxt_data", lambda: parse_stxt_data(B(t[3]), fm))))
+            elif t[2] == "fmap":
+                out.append(str(idx_steps.count_rounds("drxtract.fmap.fmap", "parse_fmap_data", lambda: parse_fmap_data(B(t[3])))))
+            else:
+                out.append("bad-op")
         elif cmd == "stxt":
             setenc(t[2])
             fm = []
